@@ -12,7 +12,7 @@ from ..astutil import (ERROR_CLASSES, Locals, anon, call_name, cfg_of, construct
 from ..jinja_interp import expr_text
 from ..cfg import CFG, walk_own
 from ..core import PKG, Report
-from .registries import _bind_call, _inline_locals, check_module_files, check_registries
+from .registries import _bind_call, _inline_locals, check_module_files, check_registries, receiver_classes
 
 LEVEL = ("error discipline and accounting over all paths: no value whose static type includes a ParseError/PropertyError is "
          "discarded; every path through one iteration of a loop over items of the document (operations, component schemas, response "
@@ -86,7 +86,7 @@ def run(rep: Report, ctx: Any) -> str:
     for f, loops in sorted(document_loops(ix).items(), key=lambda kv: kv[0].qual):
         sf = short(f)
         an = _Iteration(f, loops)
-        an.helpers = {g.name: g for g in region(ix, f, depth=1) if g is not f}
+        an.helpers = _iteration_helpers(ix, f)
         for lp, kind_of_item in loops.items():
             n_loops += 1
             kinds_seen.add(kind_of_item)
@@ -847,6 +847,27 @@ def _iter_attrs(e: ast.AST, fn: ast.AST, depth: int = 3) -> set[str]:
     return out
 
 
+def _iteration_helpers(ix: Any, f: Any) -> dict[str, Any]:
+    """the private helpers whose effects happen where f calls them: the functions of astutil.region (called by plain name / self. /
+    cls. / ClassName.), and the private methods f calls on some other object - a local copy of the object under construction, say -
+    resolved by the declared class of the receiver when annotations tell it, else by name when only one private method of the module
+    is called so"""
+    out = {g.name: g for g in region(ix, f, depth=1) if g is not f}
+    for c in _own_walk(f.node):
+        if not (isinstance(c, ast.Call) and isinstance(c.func, ast.Attribute)):
+            continue
+        last = c.func.attr
+        if not last.startswith("_") or last.startswith("__") or last in out:
+            continue
+        cands = [g for g in ix.all_functions if g.name == last and g.cls is not None and g.parent is None and g.module is f.module and g is not f]
+        known = receiver_classes(ix, f, c.func.value)
+        if known:
+            cands = [g for g in cands if any(k.name in known and g.cls in ix.mro(k) for k in ix.classes.values())]
+        if len(cands) == 1:
+            out[last] = cands[0]
+    return out
+
+
 # ---- what happens to the item on each path through one iteration -------------------------------------------------------------------
 class _S:
     """facts that hold on the paths reaching a program point inside one iteration"""
@@ -1047,6 +1068,12 @@ class _Iteration:
     def _is_error_value(self, e: ast.AST, s: _S) -> bool:
         if constructs_error(e):
             return True
+        if isinstance(e, ast.Call):
+            # the result of a private helper that returns nothing but errors it builds, whether or not its signature says so
+            g = self.helpers.get(call_name(e).rsplit(".", 1)[-1])
+            rets = [r for r in _own_walk(g.node) if isinstance(r, ast.Return)] if g is not None else []
+            if rets and all(r.value is not None and constructs_error(r.value) for r in rets):
+                return True
         if isinstance(e, ast.Name):
             # known to hold an error on this path, or somewhere in the function and not known otherwise here
             return e.id in s.err or (e.id in self.errs and e.id not in s.ok)
@@ -1079,7 +1106,8 @@ class _Iteration:
                 elif names_in(a0) & gparams:
                     keep = True
         passes_item = any(names_in(a_) & self.dep for a_ in args)
-        passes_error = any(self._is_error_value(a_, s) for a_ in args) or not s.pend
+        # the diagnostic is the known error itself or is built from it (the helper is handed the error, or something read from it)
+        passes_error = any(self._is_error_value(a_, s) or names_in(a_) & s.err for a_ in args) or not s.pend
         return rec and passes_item and passes_error, keep and passes_item
 
     def _simple(self, st: ast.stmt, s: _S) -> _S:
